@@ -1,4 +1,5 @@
 import ApolloModel.Proofs.ParserTree34
+import ApolloModel.Proofs.ParserComplete30
 import ApolloModel.Proofs.ParserTreeDef13
 import ApolloModel.Proofs.ParserTreeInj2
 import ApolloModel.Proofs.AstDocument3
@@ -890,6 +891,58 @@ theorem pipeline_print_parse_document (pre : Option Ast.Str) (level : Nat) (d : 
     · obtain ⟨x, hx', rfl⟩ := List.mem_map.mp ha
       exact wfDefinitions_mem _ hwf x (by simp [hx'])
   obtain ⟨herr, root, hroot, hconv⟩ := Parse.pipeline_strict_document rl _ its _ hstrict hw hne hfit hfol ts e hclean hsig he hx
+  refine ⟨herr, root, hroot, ?_⟩
+  rw [hconv]
+  simp [List.map_map, Function.comp_def]
+
+/-- `strictItems` inverts `Parse.itemsOfDocument` (operation / fragment → `.exec`, a type-system definition or extension →
+    the strict `.loose l` with `l.strict = some d`) on well-formed documents -/
+theorem printed_document_items_strict (oe : Bool) (d : Definition) (r : List Definition)
+    (hwf : wfDefinitions (d :: r) = true) :
+    Parse.strictItems (Parse.itemsOfDocument oe (d :: r)) = some ((Parse.itemFlag oe d, d) :: r.map (fun x => (false, x))) ∧
+      itemsToks ((Parse.itemFlag oe d, d) :: r.map (fun x => (false, x))) = tDocument oe (d :: r) := by
+  refine ⟨Parse.strictItems_itemsOfDocument oe d r (wfDefinitions_mem _ hwf), ?_⟩
+  rw [Parse.itemsToks_flag, tDocument_items]
+
+/-- **the follow guard of C05 `document_accept_complete` is a theorem for printed documents**: in the serializer's shape
+    (shorthand form only for the first definition) every next definition starts with a description or a keyword —
+    never `{`, `@`, `(`, `&`, `|`, `=`, never the Name `implements` — which is what `looseFollow` asks of the token after
+    a type-system definition -/
+theorem printed_document_follow_ok (oe : Bool) (ds : List Definition) (hwf : wfDefinitions ds = true) :
+    Parse.DocFollowOk (Parse.itemsOfDocument oe ds) :=
+  Parse.docFollowOk_of_printed oe ds (wfDefinitions_mem _ hwf)
+
+/-- **pipeline_print_parse_document, closed**: serialize, then the REAL pipeline, gives the document back — with NO
+    hypothesis from the completeness language.  For every configuration and every well-formed non-empty document `d :: r`
+    of all 17 definition kinds (names, IntValues, FloatValues of the grammar's syntax) whose definitions are within the
+    recursion limit (`Parse.definitionFit rl`: the exact guards of C05 `document_accept_complete` read on the abstract
+    syntax — nesting of types / values / selection sets within `rl`, `Const` positions, enum values, names ≠ `on`,
+    directive locations among the nineteen, an extension has a component): the printed text parses with ZERO errors and
+    `Document::from_cst` on its tree returns `d :: r`.  The items are `Parse.itemsOfDocument`, their `strictItems` and
+    `DocFollowOk` are proved (`printed_document_items_strict`, `printed_document_follow_ok`). -/
+theorem pipeline_print_parse_document_closed (pre : Option Ast.Str) (level : Nat) (d : Definition) (r : List Definition)
+    (hwf : wfDefinitions (d :: r) = true) (hpre : ∀ p, pre = some p → p.all Apollo.Strs.isWs = true)
+    (hn : NamesWf (docSegs pre level (d :: r))) (hi : IntsSpec (docSegs pre level (d :: r)))
+    (hf : FloatsSpec (docSegs pre level (d :: r)))
+    (rl : Nat) (hfit : ∀ x ∈ d :: r, Parse.definitionFit rl x) :
+    (parse .document none rl (serializeDocument pre level (d :: r)).out).errors = [] ∧
+    ∃ root, (parse .document none rl (serializeDocument pre level (d :: r)).out).outcome = .tree root ∧
+      (FromCst.fromCst root).1 = d :: r := by
+  have hlex := text_lexes_back_full pre level (d :: r) hpre hn hi hf
+  rw [toksOf_cDocument] at hlex
+  obtain ⟨hclean, ts, e, hsig, he, hx⟩ := (Parse.sigToks_src_iff _ _).mp hlex
+  obtain ⟨hstrict, htoks⟩ := printed_document_items_strict (outputEmptyAtStart pre level) d r hwf
+  have hw : ∀ a ∈ ((Parse.itemFlag (outputEmptyAtStart pre level) d, d) :: r.map (fun x => (false, x)) : List (Bool × Definition)),
+      wfDefinition a.2 = true := by
+    intro a ha
+    rcases List.mem_cons.mp ha with rfl | ha
+    · exact wfDefinitions_mem _ hwf d (by simp)
+    · obtain ⟨x, hx', rfl⟩ := List.mem_map.mp ha
+      exact wfDefinitions_mem _ hwf x (by simp [hx'])
+  obtain ⟨herr, root, hroot, hconv⟩ := Parse.pipeline_strict_document rl _ (Parse.itemsOfDocument (outputEmptyAtStart pre level) (d :: r)) _
+    hstrict hw (by simp [Parse.itemsOfDocument])
+    (Parse.itemFit_itemsOfDocument rl _ (d :: r) hfit) (printed_document_follow_ok _ (d :: r) hwf) ts e hclean hsig he
+    (by rw [htoks]; exact hx)
   refine ⟨herr, root, hroot, ?_⟩
   rw [hconv]
   simp [List.map_map, Function.comp_def]
